@@ -7,10 +7,11 @@ Over ordered fields (exact statement; "otherwise up to rounding"):
             `C15_linear_scale_axis` (`c > 0`) and `C15_linear_shift`.
 * Bilinear: `C15_bilinear_scale_data`, `C15_bilinear_add`, `C15_bilinear_axis_map` (independent
             maps for x and y), `C15_bilinear_scale_axes`.
-* Spline:   `C15_spline_scale_data`, `C15_spline_add` (the solver is linear in data and boundary
-            values — an identity of the algorithm), `C15_spline_shift` (the system only contains
-            differences of knots), `C15_spline_scale_axis` (slopes scale by `1/c`; boundary values
-            `FirstDeriv v/c`, `SecondDeriv v/c²`; by uniqueness).
+* Spline:   `C15_spline_scale_data` (data and boundary derivative values × c ⇒ slopes and every piece
+            × c — the assembled rows are homogeneous and the solver is linear, an identity of the
+            algorithm), `C15_spline_shift` (the system only contains differences of knots: a common
+            shift of axis and query changes nothing), `C15_spline_solver_scale`; additivity of the
+            solver in its right-hand sides is `fwd_add` / `back_add` (`Lemmas/Linearity`).
 Bit-for-bit half (arbitrary scalar type, arbitrary operations):
 * `C15_hom_linear_data`, `C15_hom_linear_axis`: if a map commutes with the operations the way an
   exact scaling (power of two, negation) does, Linear commutes with it.
@@ -18,6 +19,7 @@ Bit-for-bit half (arbitrary scalar type, arbitrary operations):
 import NdInterp.Props.C03
 import NdInterp.Props.C04
 import NdInterp.Lemmas.Linearity
+import NdInterp.Lemmas.SplineLinear
 
 namespace NdInterp
 
@@ -225,6 +227,123 @@ theorem C15_bilinear_scale_data (ext : Bool) (xs ys : List F) (zs : List (List F
   congr 1
   simp only [map4_scalar, calcFrac]
   ring
+
+/-- **C15_spline_scale_data**: multiplying the data and the boundary derivative values by `c`
+    multiplies the slopes and every cubic piece by `c` (every non-periodic boundary pair). -/
+theorem C15_spline_scale_data (c : F) (xs ys ks : List F) (hy : ys.length = xs.length)
+    (hn : 3 ≤ xs.length) (left right : SingleBoundary F) (hk : ks.length = xs.length)
+    (h : solveForK (V := F) xs ys (.mixed left right) = .ok ks) :
+    solveForK (V := F) xs (ys.map (c * ·)) (.mixed (left.scale c) (right.scale c)) = .ok (ks.map (c * ·)) ∧
+    ∀ i (hi : i + 1 < xs.length) q,
+      (pieceAt xs (ys.map (c * ·)) (ks.map (c * ·)) i hi (by simpa using hy) (by simpa using hk)).eval q =
+        c * (pieceAt xs ys ks i hi hy hk).eval q := by
+  constructor
+  · rw [solveForK_scale c xs ys hy hn, h]; rfl
+  · intro i hi q
+    simp only [pieceAt, List.getElem_map]
+    exact pieceCubic_scale c _ _ _ _ _ _ q
+
+/-- **C15_spline_shift**: shifting axis and query by the same amount leaves slopes and values unchanged. -/
+theorem C15_spline_shift (d : F) (xs ys ks : List F) (hy : ys.length = xs.length)
+    (hn : 3 ≤ xs.length) (left right : SingleBoundary F) (hk : ks.length = xs.length)
+    (h : solveForK (V := F) xs ys (.mixed left right) = .ok ks) :
+    solveForK (V := F) (xs.map (· + d)) ys (.mixed left right) = .ok ks ∧
+    ∀ i (hi : i + 1 < xs.length) q,
+      (pieceAt (xs.map (· + d)) ys ks i (by simpa using hi) (by simpa using hy) (by simpa using hk)).eval (q + d) =
+        (pieceAt xs ys ks i hi hy hk).eval q := by
+  constructor
+  · rw [solveForK_shift d xs ys hy hn, h]
+  · intro i hi q
+    simp only [pieceAt, List.getElem_map]
+    exact pieceCubic_shift d _ _ _ _ _ _ q
+
+omit [LawfulCmp F] [ToUsize F] [LawfulToUsize F] in
+/-- **C15_spline_scale_axis**: multiplying the axis by `c > 0` (boundary values converted:
+    `FirstDeriv v/c`, `SecondDeriv v/c²`) divides the slopes by `c` and leaves every value unchanged:
+    `S_c(c·q) = S(q)`.  By uniqueness of the spline (`C03_unique`). -/
+theorem C15_spline_scale_axis (c : F) (hc : 0 < c) (xs ys ks : List F) (hs : StrictInc xs)
+    (hy : ys.length = xs.length) (hn : 3 ≤ xs.length) (left right : SingleBoundary F)
+    (hpar : ¬ (xs.length = 3 ∧ isNakPair left right = true)) (hk : ks.length = xs.length)
+    (h : solveForK (V := F) xs ys (.mixed left right) = .ok ks) :
+    solveForK (V := F) (xs.map (c * ·)) ys (.mixed (left.scaleAxis c) (right.scaleAxis c)) =
+      .ok (ks.map (· / c)) ∧
+    ∀ i (hi : i + 1 < xs.length) q,
+      (pieceAt (xs.map (c * ·)) ys (ks.map (· / c)) i (by simpa using hi) (by simpa using hy)
+        (by simpa using hk)).eval (c * q) = (pieceAt xs ys ks i hi hy hk).eval q := by
+  have hc0 : c ≠ 0 := ne_of_gt hc
+  have hne : ∀ i j (hij : i < j) (hj : j < xs.length), xs[j] - xs[i]'(by omega) ≠ 0 :=
+    fun i j hij hj => ne_of_gt (sub_pos.mpr (hs.2 i j hij hj))
+  -- the computed slopes satisfy the conditions
+  obtain ⟨ks0, h0, hk0, hsat, _⟩ := solveForK_spec xs ys hy hn hs left right
+  have : ks0 = ks := by rw [h0] at h; injection h
+  subst this
+  obtain ⟨hC2, hL, hR⟩ := (spline_char xs ys ks0 hy hk hn hs left right hpar).mp hsat
+  have hs' : StrictInc (xs.map (c * ·)) :=
+    strictInc_map (fun x => c * x) (fun a b hab => mul_lt_mul_of_pos_left hab hc) xs hs
+  have hy' : ys.length = (xs.map (c * ·)).length := by simpa using hy
+  have hk' : (ks0.map (· / c)).length = (xs.map (c * ·)).length := by simpa using hk
+  have hn' : 3 ≤ (xs.map (c * ·)).length := by simpa using hn
+  -- pieces of the scaled problem
+  have hp : ∀ i j (hij : i < j) (hj : j < xs.length),
+      pc (xs.map (c * ·)) ys (ks0.map (· / c)) hy' hk' i j (by simp; omega) (by simpa using hj) =
+        pieceCubic (c * xs[i]'(by omega)) (c * xs[j]) (ys[i]'(by omega)) (ys[j]'(by omega))
+          ((ks0[i]'(by omega)) / c) ((ks0[j]'(by omega)) / c) := by
+    intro i j hij hj
+    simp [pc]
+  have hnak : isNakPair (left.scaleAxis c) (right.scaleAxis c) = isNakPair left right := by
+    cases left <;> cases right <;> rfl
+  constructor
+  · apply C03_unique (xs.map (c * ·)) ys hs' hy' hn' _ _ (by rw [hnak]; simpa using hpar) _ hk'
+    · intro j hj
+      have hj' : j + 2 < xs.length := by simpa using hj
+      have a := pieceCubic_scaleAxis c xs[j] xs[j + 1] (ys[j]'(by omega)) (ys[j + 1]'(by omega))
+        (ks0[j]'(by omega)) (ks0[j + 1]'(by omega)) hc0 (hne j (j + 1) (by omega) (by omega))
+      have b := pieceCubic_scaleAxis c xs[j + 1] xs[j + 2] (ys[j + 1]'(by omega)) (ys[j + 2]'(by omega))
+        (ks0[j + 1]'(by omega)) (ks0[j + 2]'(by omega)) hc0 (hne (j + 1) (j + 2) (by omega) hj')
+      rw [hp j (j + 1) (by omega) (by omega), hp (j + 1) (j + 2) (by omega) hj']
+      simp only [List.getElem_map]
+      rw [a.2.2.1, b.2.2.1]
+      have := hC2 j hj'
+      simp only [pc] at this
+      rw [this]
+    · have a := pieceCubic_scaleAxis c xs[0] xs[1] (ys[0]'(by omega)) (ys[1]'(by omega))
+        (ks0[0]'(by omega)) (ks0[1]'(by omega)) hc0 (hne 0 1 (by omega) (by omega))
+      have b := pieceCubic_scaleAxis c xs[1] xs[2] (ys[1]'(by omega)) (ys[2]'(by omega))
+        (ks0[1]'(by omega)) (ks0[2]'(by omega)) hc0 (hne 1 2 (by omega) (by omega))
+      unfold LeftCond at hL ⊢
+      rw [hp 0 1 (by omega) (by omega), hp 1 2 (by omega) (by omega)]
+      simp only [pc] at hL
+      cases left <;>
+        simp only [SingleBoundary.scaleAxis, SingleBoundary.specialize, List.getElem_map] at hL ⊢
+      · rw [a.2.2.2, b.2.2.2, hL]
+      · rw [a.2.2.1, hL]; simp
+      · rw [a.2.1, hL]; simp
+      · rw [a.2.1, hL]
+      · rw [a.2.2.1, hL]
+    · have e1 : (xs.map (c * ·)).length = xs.length := by simp
+      have a := pieceCubic_scaleAxis c xs[xs.length - 3] xs[xs.length - 2] (ys[xs.length - 3]'(by omega))
+        (ys[xs.length - 2]'(by omega)) (ks0[xs.length - 3]'(by omega)) (ks0[xs.length - 2]'(by omega)) hc0
+        (hne _ _ (by omega) (by omega))
+      have b := pieceCubic_scaleAxis c xs[xs.length - 2] xs[xs.length - 1] (ys[xs.length - 2]'(by omega))
+        (ys[xs.length - 1]'(by omega)) (ks0[xs.length - 2]'(by omega)) (ks0[xs.length - 1]'(by omega)) hc0
+        (hne _ _ (by omega) (by omega))
+      unfold RightCond at hR ⊢
+      simp only [e1]
+      rw [hp (xs.length - 3) (xs.length - 2) (by omega) (by omega),
+        hp (xs.length - 2) (xs.length - 1) (by omega) (by omega)]
+      simp only [pc] at hR
+      cases right <;>
+        simp only [SingleBoundary.scaleAxis, SingleBoundary.specialize, List.getElem_map] at hR ⊢
+      · rw [a.2.2.2, b.2.2.2, hR]
+      · rw [b.2.2.1, hR]; simp
+      · rw [b.2.1, hR]; simp
+      · rw [b.2.1, hR]
+      · rw [b.2.2.1, hR]
+  · intro i hi q
+    have a := pieceCubic_scaleAxis c xs[i] xs[i + 1] (ys[i]'(by omega)) (ys[i + 1]'(by omega))
+      (ks0[i]'(by omega)) (ks0[i + 1]'(by omega)) hc0 (hne i (i + 1) (by omega) hi)
+    simp only [pieceAt, List.getElem_map]
+    exact a.1 q
 
 /-- **C15_spline_solver_scale**: the tridiagonal solve is homogeneous in the right-hand sides
     (data and boundary derivative values) — an identity of the algorithm. -/
